@@ -1,4 +1,5 @@
 """C12 — row operators are local."""
+import json
 import aglib
 import gen
 from props.common import *
@@ -196,6 +197,18 @@ def explore(ctx):
         elif oaxb != oa + ox + ob or oxb != ox + ob:
             failures.append({'kind': 'spec', 'what': 'a %d-byte line changed the rows produced for the lines around it: %r, without it %r' % (len(lx[0]), oaxb[-300:], (oa + ob)[-300:]),
                              'payload': {'query': q, 'input_lines': la + lx + lb, 'mode': 'json'}})
+    # one line in, at most one row out - also for a line beyond 1 MiB whose tail looks like a record of its own
+    for size in ((1200000,) if quick else (1200000, 2200000, 4300000)):
+        big = 'n=2; ' + 'x' * size + ' n=9; tail'
+        inp = ('n=1; a\n' + big + '\nn=3; c\n').encode()
+        for q, want in (('* | parse "n=*;" as n | fields n', [{'n': 1}, {'n': 2}, {'n': 3}]), ('* | parse "n=*;" as n nodrop | count', [[{'_count': 3}]])):
+            o = aglib.run_impl_one(q, inp, 'json', timeout=120)
+            long_checked += 1
+            got = [json.loads(l) for l in o['out'].decode('utf8', 'replace').split('\n') if l]
+            if o['rc'] != 0 or got != want:
+                failures.append({'kind': 'spec', 'what': 'three lines, the middle one %d bytes long: %s gives %r, expected %r' % (len(big), q, got[:6], want),
+                                 'payload': {'query': q, 'line_lengths': [6, len(big), 6], 'input_recipe': "'n=1; a', 'n=2; ' + 'x'*%d + ' n=9; tail', 'n=3; c'" % size}})
+                break
     hist = {}
     for _s, stages, _a, _b in groups:
         for s in stages[1:]:
